@@ -1173,6 +1173,46 @@ func ext۰syncMap۰Range(fr *frame, a []value) value {
 	return nil
 }
 
+// sync.Pool: a free list per pool; Get hands back the most recently Put item
+// (the schedule-independent worst case for state carried over between uses),
+// New() when the list is empty.
+func ext۰syncPool۰Get(fr *frame, a []value) value {
+	st := fr.i.st
+	p := a[0].(*value)
+	pools, _ := st.extra["sync.Pool"].(map[*value][]value)
+	if items := pools[p]; len(items) > 0 {
+		v := items[len(items)-1]
+		pools[p] = items[:len(items)-1]
+		st.raceAcquire(fr.g, p)
+		return v
+	}
+	s := (*p).(structure)
+	switch fn := s[len(s)-1].(type) {
+	case *ssa.Function:
+		if fn != nil {
+			return call(fr.i, fr, 0, fn, nil)
+		}
+	case *closure:
+		if fn != nil {
+			return call(fr.i, fr, 0, fn, nil)
+		}
+	}
+	return iface{}
+}
+
+func ext۰syncPool۰Put(fr *frame, a []value) value {
+	st := fr.i.st
+	p := a[0].(*value)
+	pools, _ := st.extra["sync.Pool"].(map[*value][]value)
+	if pools == nil {
+		pools = map[*value][]value{}
+		st.extra["sync.Pool"] = pools
+	}
+	pools[p] = append(pools[p], a[1])
+	st.raceRelease(fr.g, p)
+	return nil
+}
+
 func ext۰time۰Time۰UnixNano(fr *frame, a []value) value {
 	return a[0].(structure)[1].(int64)
 }
@@ -1195,6 +1235,8 @@ func init() {
 		return fmt.Sprintf("uuid-%d", st.clock)
 	}
 	externals["go.mongodb.org/mongo-driver/bson.Marshal"] = func(fr *frame, a []value) value { return tuple{[]value{}, iface{}} }
+	externals["(*sync.Pool).Get"] = ext۰syncPool۰Get
+	externals["(*sync.Pool).Put"] = ext۰syncPool۰Put
 	externals["(*sync.Map).Store"] = ext۰syncMap۰Store
 	externals["(*sync.Map).Load"] = ext۰syncMap۰Load
 	externals["(*sync.Map).Delete"] = ext۰syncMap۰Delete
